@@ -139,12 +139,31 @@ Definition atoi (s : string) : Z :=
   | _, _ => 0
   end.
 
+(** parseHexAddress: an optional "0x" / "0X", then strconv.ParseUint(_, 16, 64):
+    hexadecimal digits only up to the end of the token (no sign), at least
+    one; a syntax or range error gives 0; the uint64 is converted to int64. *)
+Definition strip_0x (s : string) : string :=
+  match s with
+  | String c (String d r) =>
+      if Ascii.eqb c "0"%char && (Ascii.eqb d "x"%char || Ascii.eqb d "X"%char) then r else s
+  | _ => s
+  end.
+
+Definition parse_addr (s : string) : Z :=
+  let (ds, rest) := span_digits 16 (strip_0x s) in
+  match ds, rest with
+  | _ :: _, EmptyString =>
+      let v := Z.of_N (eval_digits 16 ds) in
+      if v <? 2 ^ 64 then (if v <? 2 ^ 63 then v else v - 2 ^ 64) else 0
+  | _, _ => 0
+  end.
+
 (** Go conversion int -> int32 *)
 Definition wrap32 (z : Z) : Z := (z + 2 ^ 31) mod 2 ^ 32 - 2 ^ 31.
 
-(** nvidiaconfig.registerTable: "R0".."R31" and "R255" (regID; isZero is
-    regID = 255, rawText is the key) *)
-Definition reg_ids : list Z := map Z.of_nat (seq 0 32) ++ [255].
+(** nvidiaconfig.registerTable: "R0".."R254" and the zero register "R255"
+    (regID; isZero is regID = 255, rawText is the key) *)
+Definition reg_ids : list Z := map Z.of_nat (seq 0 256).
 Definition reg_table : list (string * Z) := map (fun r => (regstr r, r)) reg_ids.
 
 Fixpoint lookup (s : string) (t : list (string * Z)) : option Z :=
@@ -229,12 +248,13 @@ Record pinst := mkP {
   p_mask : Z;               (* Mask int64 *)
   p_destnum : Z;            (* DestNum int32 *)
   p_dests : list Z;         (* DestRegs *)
-  p_op : option string;     (* OpCode *Opcode; nil = None *)
+  p_op : option string;     (* OpCode *Opcode: nil = None, else its String() *)
   p_srcnum : Z;             (* SrcNum int32 *)
   p_srcs : list Z;          (* SrcRegs *)
   p_memwidth : Z;           (* MemWidth int32 *)
   p_compress : Z;           (* AddressCompress int32 *)
   p_memaddr : Z;            (* MemAddress int64 *)
+  p_addrs : list Z;         (* MemAddresses []int64 *)
   p_suffix1 : Z;            (* MemAddressSuffix1 int32 *)
   p_suffix2 : list Z;       (* MemAddressSuffix2 []int32 *)
   p_imm : Z                 (* Immediate int64 *)
@@ -269,8 +289,9 @@ Definition scan_regs (elems : list string) (start cnt : Z) : option (list Z) :=
        then mapM new_register (firstn (Z.to_nat cnt) (skipn (Z.to_nat start) elems))
        else None.
 
-(** memory part of the record: MemWidth AddressCompress MemAddress Suffix1 Suffix2 Immediate *)
-Definition mempart : Type := Z * Z * Z * Z * list Z * Z.
+(** memory part of the record: MemWidth AddressCompress MemAddress MemAddresses
+    Suffix1 Suffix2 Immediate *)
+Definition mempart : Type := Z * Z * Z * list Z * Z * list Z * Z.
 
 Definition parse_mem (elems : list string) : option mempart :=
   match nthz elems 0 with
@@ -278,26 +299,38 @@ Definition parse_mem (elems : list string) : option mempart :=
   | Some m0 =>
       let w := sscanf 10 32 m0 in
       let imm := atoi (last elems EmptyString) in
-      if w =? 0 then Some (w, 0, 0, 0, [], imm)
+      if w =? 0 then Some (w, 0, 0, [], 0, [], imm)
       else
-        match nthz elems 1, nthz elems 2 with
-        | Some m1, Some m2 =>
+        match nthz elems 1 with
+        | None => None
+        | Some m1 =>
             let c := sscanf 10 32 m1 in
-            let a := sscanf 16 64 m2 in
-            if c =? 1 then
-              match nthz elems 3 with
-              | Some m3 => Some (w, c, a, sscanf 10 32 m3, [], imm)
-              | None => None
-              end
-            else if c =? 2 then
-              (* elems[3 : len(elems)-1] *)
-              if 3 <=? zlen elems - 1
-              then Some (w, c, a, 0,
-                         map (fun s => wrap32 (atoi s))
-                             (firstn (List.length elems - 1 - 3) (skipn 3 elems)), imm)
+            if c =? 0 then
+              (* elems[2 : len(elems)-1] *)
+              if 2 <=? zlen elems - 1
+              then let addrs := map parse_addr
+                                    (firstn (List.length elems - 1 - 2) (skipn 2 elems)) in
+                   Some (w, c, hd 0 addrs, addrs, 0, [], imm)
               else None
-            else Some (w, c, a, 0, [], imm)
-        | _, _ => None
+            else
+              match nthz elems 2 with
+              | None => None
+              | Some m2 =>
+                  let a := parse_addr m2 in
+                  if c =? 1 then
+                    match nthz elems 3 with
+                    | Some m3 => Some (w, c, a, [], sscanf 10 32 m3, [], imm)
+                    | None => None
+                    end
+                  else if c =? 2 then
+                    (* elems[3 : len(elems)-1] *)
+                    if 3 <=? zlen elems - 1
+                    then Some (w, c, a, [], 0,
+                               map (fun s => wrap32 (atoi s))
+                                   (firstn (List.length elems - 1 - 3) (skipn 3 elems)), imm)
+                    else None
+                  else Some (w, c, a, [], 0, [], imm)
+              end
         end
   end.
 
@@ -310,10 +343,9 @@ Definition parse_inst (elems : list string) : option pinst :=
       match scan_regs elems 3 dn with
       | None => None
       | Some dests =>
-          (* the opcode elems[3+dn] is not read: that line is commented out *)
-          match nthz elems (4 + dn) with
-          | None => None
-          | Some es =>
+          (* NewOpcode never panics; OpCode.String() is the token *)
+          match nthz elems (3 + dn), nthz elems (4 + dn) with
+          | Some op, Some es =>
               let sn := sscanf 10 32 es in
               match scan_regs elems (4 + dn + 1) sn with
               | None => None
@@ -323,11 +355,13 @@ Definition parse_inst (elems : list string) : option pinst :=
                   | Some rest =>
                       match parse_mem rest with
                       | None => None
-                      | Some (w, c, a, s1, s2, imm) =>
-                          Some (mkP (0, 0, 0) 0 pc mask dn dests None sn srcs w c a s1 s2 imm)
+                      | Some (w, c, a, addrs, s1, s2, imm) =>
+                          Some (mkP (0, 0, 0) 0 pc mask dn dests (Some op) sn srcs
+                                    w c a addrs s1 s2 imm)
                       end
                   end
               end
+          | _, _ => None
           end
       end
   | _, _, _ => None
@@ -624,27 +658,28 @@ Definition pblock : Type := dim3 * list pwarp.     (* id, Warps *)
 
 Definition stamp (tb : dim3) (wid : Z) (p : pinst) : pinst :=
   mkP tb wid (p_pc p) (p_mask p) (p_destnum p) (p_dests p) (p_op p) (p_srcnum p) (p_srcs p)
-      (p_memwidth p) (p_compress p) (p_memaddr p) (p_suffix1 p) (p_suffix2 p) (p_imm p).
+      (p_memwidth p) (p_compress p) (p_memaddr p) (p_addrs p) (p_suffix1 p) (p_suffix2 p) (p_imm p).
 
-(** for j := 0; j < InstsCount; j++ { moveScannerToNextLine(); extractInst(Text()) }.
-    The result of moveScannerToNextLine is not looked at; at the end of the
-    file the text is "" and extractInst panics, so [fuel] = 1 + number of
-    unread lines is never exhausted before a panic. *)
+(** for j := 0; j < InstsCount; j++ { if !moveScannerToNextLine() { Panic };
+    extractInst(Text()) }.  Every iteration scans a line or panics, so
+    [fuel] = 1 + number of unread lines is never exhausted before a panic. *)
 Fixpoint read_insts (fuel : nat) (cnt : Z) (tb : dim3) (wid : Z) (st : sstate)
   : option (list pinst * sstate) :=
   if cnt <=? 0 then Some ([], st)
   else match fuel with
        | O => None
        | S f =>
-           let st' := snd (move_next st) in
-           match parse_inst (line_toks (fst st')) with
-           | None => None
-           | Some p =>
-               match read_insts f (cnt - 1) tb wid st' with
-               | None => None
-               | Some (ps, st'') => Some (stamp tb wid p :: ps, st'')
-               end
-           end
+           let (ok, st') := move_next st in
+           if negb ok then None      (* Panic("Cannot find instruction line") *)
+           else
+             match parse_inst (line_toks (fst st')) with
+             | None => None
+             | Some p =>
+                 match read_insts f (cnt - 1) tb wid st' with
+                 | None => None
+                 | Some (ps, st'') => Some (stamp tb wid p :: ps, st'')
+                 end
+             end
        end.
 
 (** the inner loop of readThreadblocks (one thread block) *)
@@ -738,9 +773,10 @@ Definition pinst_diff (a b : pinst) : Z :=
   else if negb (p_memwidth a =? p_memwidth b) then 10
   else if negb (p_compress a =? p_compress b) then 11
   else if negb (p_memaddr a =? p_memaddr b) then 12
-  else if negb (p_suffix1 a =? p_suffix1 b) then 13
-  else if negb (list_eqb Z.eqb (p_suffix2 a) (p_suffix2 b)) then 14
-  else if negb (p_imm a =? p_imm b) then 15
+  else if negb (list_eqb Z.eqb (p_addrs a) (p_addrs b)) then 13
+  else if negb (p_suffix1 a =? p_suffix1 b) then 14
+  else if negb (list_eqb Z.eqb (p_suffix2 a) (p_suffix2 b)) then 15
+  else if negb (p_imm a =? p_imm b) then 16
   else 0.
 
 Definition pinst_eqb (a b : pinst) : bool := pinst_diff a b =? 0.
@@ -759,7 +795,7 @@ Fixpoint first_inst_diff (a b : list pinst) : Z :=
   | [], [] => 0
   | x :: a', y :: b' => let d := pinst_diff x y in
                         if d =? 0 then first_inst_diff a' b' else d
-  | _, _ => 16
+  | _, _ => 17
   end.
 
 Definition pwarp_skel (w : pwarp) : Z * Z * Z := let '(id, c, ps) := w in (id, c, zlen ps).
